@@ -123,7 +123,8 @@ CHECKS = {
              '(2) For each LexFlags field (read from the ADT) name agreement is checked along the whole plumbing: header '
              'key -> field, defaults merge, field -> RegexBuilder setter of the same name, CTLexerBuilder setter -> header key. '
              '(3) No number that is a setting is narrowed with an `as` cast on its way into a flag (all integer casts enumerated). '
-             '(4) The lex parser strips and tests blanks with its one white-space predicate only (no Unicode White_Space trim/is_whitespace).',
+             '(4) The lex parser strips and tests blanks with its one white-space predicate only (no Unicode White_Space trim/is_whitespace). '
+             '(5) A span built from the length of a piece line[A..] of a rule line starts at that piece (offset of the line + A), on every path.',
         note='Decides the span-offset clause and the "flags given are the ones in force" clause structurally. Does NOT decide '
              'that rule splitting and escape rewriting denote the right regular language. Trusted: ' + TB,
         technique='def-use provenance of parser inputs + name-agreement check over resolved field indices, callee names and constant strings in MIR',
@@ -193,10 +194,13 @@ CHECKS = {
              'the iteration before the least fixed point, i.e. gives sets that are too small. Also: every loop summary flag of '
              'the analyses (all_done / cmplt / empty / only_reduces ...) moves only away from its initial value inside its loop; '
              'wherever FIRST(Y) of a production symbol is read as its contribution, nullable(Y) of the same Y is tested; and the '
-             'min/max cost accumulators keep the lower/higher candidate.',
+             'min/max cost accumulators keep the lower/higher candidate; the round loops of the cost functions have termination '
+             'evidence (exit on an unchanged round, or cyclic rules finalised beforehand); a maximum is final only when no '
+             'production of the rule is incomplete.',
         note='A necessary condition for exactness and termination-at-the-fixed-point. That the transfer functions are right beyond the '
              'FIRST/nullable pairing is NOT decided (the pairing rule found a real FOLLOW defect, fixed in /repo 2a78056); '
-             'nor are reachability, sentence costs and minimal sentences. Trusted: ' + TB,
+             'nor are reachability and minimal sentences; 1 known finding (rule_min_costs can hang / overflow on unit cycles and '
+             'unproductive recursion). Trusted: ' + TB,
         technique='structural recognition of fixed-point loops in MIR + monotone-flag and noticed-mutation checks (reachability avoiding flag-raising blocks)',
         ref='§4 C17, §10.6'),
     'C18': dict(
@@ -207,7 +211,8 @@ CHECKS = {
              'containing the cache string computed by rebuild_cache); delete-before-regenerate by dominance; no failing exit '
              '(Err return, `?`, explicit panic) after the output path is claimed without removal of the output - directly or '
              'through a drop guard that owns the path and is disarmed only immediately before Ok exits; lexer rewrite rule; type '
-             'parameters whose names the generated code spells out are part of the cache key.',
+             'parameters whose names the generated code spells out are part of the cache key; enum settings are rendered '
+             'injectively (different variants differ, payloads are rendered).',
         note='Necessary conditions for "ends in the state a clean build would". Equality with a clean build across arbitrary '
              'file-system histories / clock granularity is NOT decided. 3 known findings (settings that bypass the cache: the '
              'inspect_rt callback that validates test_files, and the unstable in-memory grammar sources). Trusted: std::fs semantics; ' + TB,
@@ -222,7 +227,8 @@ CHECKS = {
              'and two table invariants whose premises are checked structurally (new() builds the table as [0]; every other '
              'holder of &mut newlines only grows it). Plus the CR LF clause of column counting: the character loop, read as a '
              'finite transducer (state = loop-carried small-domain locals, input = CR/LF/other), is bisimilar to "count every '
-             'character except an LF right after a CR".',
+             'character except an LF right after a CR". No byte offset reaching Span::new or a slice bound is formed as '
+             'str::lines()-item length + 1 (lines() strips CR LF too).',
         note='A necessary condition of "the lines-of-span query never panics, including spans that end at a line start or at '
              'the end of the text"; it found the out-of-bounds read fixed in /repo 707b1f1. NOT decided: that line '
              'numbers and returned byte ranges are the right ones, the str slicing done with them in lrlex/lrpar, '
